@@ -375,6 +375,59 @@ func outOfDomain(st *c12Stats) {
 			m.AppendSignal(s)
 			return n
 		}},
+		{"enum-constants-out-of-range", "/net[2]/buses[1]/bus[5]/ifaces[1]/if[3]/msgs[1]/msg[6]: 7 vs 0 | /net[2]/buses[1]/bus[5]/ifaces[1]/if[3]/msgs[1]/msg[7]: 5 vs 0 | /net[2]/buses[1]/bus[5]/ifaces[1]/if[3]/msgs[1]/msg[9]: 9 vs 0 | /net[2]/buses[1]/bus[5]/ifaces[1]/if[3]/msgs[1]/msg[13]/sigs[1]/std[1]/h[2]: 20 vs 0 | /net[6]/units[1]/un[2]: 9 vs 0", func() *acmelib.Network {
+			n, _, m := base()
+			m.SetPriority(acmelib.MessagePriority(7))
+			m.SetByteOrder(acmelib.MessageByteOrder(5))
+			m.SetSendType(acmelib.MessageSendType(9))
+			s, _ := acmelib.NewStandardSignal("sig", acmelib.NewFlagSignalType("flag"))
+			s.SetSendType(acmelib.SignalSendType(20))
+			s.SetUnit(acmelib.NewSignalUnit("unit", acmelib.SignalUnitKind(9), "x"))
+			m.AppendSignal(s)
+			return n
+		}},
+		{"bus-type", "/net[2]/buses[1]/bus[3]: 3 vs 0", func() *acmelib.Network {
+			n, b, _ := base()
+			b.SetType(acmelib.BusType(3))
+			return n
+		}},
+		{"negative-ints", "/net[2]/buses[1]/bus[2]: -1 vs 4294967295 | /net[2]/buses[1]/bus[5]/ifaces[1]/if[3]/msgs[1]/msg[8]: -2 vs 4294967294 | /net[2]/buses[1]/bus[5]/ifaces[1]/if[3]/msgs[1]/msg[10]: -3 vs 4294967293 | /net[2]/buses[1]/bus[5]/ifaces[1]/if[3]/msgs[1]/msg[11]: -4 vs 4294967292", func() *acmelib.Network {
+			n, b, m := base()
+			b.SetBaudrate(-1)
+			m.SetCycleTime(-2)
+			m.SetDelayTime(-3)
+			m.SetStartDelayTime(-4)
+			return n
+		}},
+		{"invalid-utf8-name", "(SaveNetwork refuses the network)", func() *acmelib.Network {
+			n, b, _ := base()
+			b.SetDesc("bad \xff\xfe bytes")
+			return n
+		}},
+		{"unattached-interface-messages", "/unattached[1]: 1 vs 0", func() *acmelib.Network {
+			// the node of the attached interface has a second interface that is attached to no bus and sends a message:
+			// reachable through Node.Interfaces(), but the save format holds messages under bus interfaces only
+			n := acmelib.NewNetwork("ood")
+			b := acmelib.NewBus("bus")
+			n.AddBus(b)
+			nd := acmelib.NewNode("node", 1, 2)
+			b.AddNodeInterface(nd.Interfaces()[0])
+			nd.Interfaces()[0].AddSentMessage(acmelib.NewMessage("msg", 1, 8))
+			nd.Interfaces()[1].AddSentMessage(acmelib.NewMessage("detached_msg", 2, 8))
+			return n
+		}},
+	}
+	// messages sent by interfaces that are attached to no bus, of the nodes the network reaches
+	unattached := func(col *collector) *SX {
+		k := 0
+		for _, nd := range col.nodes {
+			for _, ni := range nd.Interfaces() {
+				if ni.ParentBus() == nil {
+					k += len(ni.SentMessages())
+				}
+			}
+		}
+		return T("unattached", I(int64(k)))
 	}
 	for _, c := range cases {
 		n := c.build()
@@ -390,11 +443,12 @@ func outOfDomain(st *c12Stats) {
 			st.fail("c12-domain-load-failure:"+c.kind, fmt.Sprintf("LoadNetwork fails on the save of the out-of-domain network (%s): %v %v", c.kind, o.err, o.panicV), 0, "ood:"+c.kind)
 			continue
 		}
-		a, _ := dumpNet(n)
-		g, _ := dumpLoadedNet(o.net)
+		a, acol := dumpNet(n)
+		g, gcol := dumpLoadedNet(o.net)
 		// the recorded finding is exactly: the one out-of-domain field comes back as the documented value and
 		// nothing else differs; any other difference keeps its own signature
 		diffs := DiffAll("", Canon(a), Canon(g), nil)
+		diffs = DiffAll("", unattached(acol), unattached(gcol), diffs)
 		switch {
 		case len(diffs) == 0:
 			st.hist["out-of-domain-reproduced-"+c.kind]++
